@@ -271,91 +271,86 @@ Section Phase.
     | _ => True
     end.
 
-  (* knowledge invariants.  [Chg] says: whenever a thread is about to change the
-     phase it holds hs (both static checks guarantee it). *)
-  Definition know_inv (st : xstate) : Prop :=
-    forall i t, nth_error (snd st) i = Some t ->
-      (xk t = KInit -> In hs (xheld t) /\ fst st = PInit) /\
-      (xk t = KFailed -> In hs (xheld t) /\ fst st = PFailed) /\
-      (xk t = KReneg -> In hs (xheld t) /\ fst st = PReneg) /\
-      (xk t = KDone -> fst st <> PInit).
+  (* knowledge invariants *)
+  Definition kfacts (ph : phase) (h : list lock) (k : know) : Prop :=
+    (k = KInit -> In hs h /\ ph = PInit) /\
+    (k = KFailed -> In hs h /\ ph = PFailed) /\
+    (k = KReneg -> In hs h /\ ph = PReneg) /\
+    (k = KDone -> ph <> PInit).
 
+  Definition know_inv (st : xstate) : Prop :=
+    forall i t, nth_error (snd st) i = Some t -> kfacts (fst st) (xheld t) (xk t).
+
+  (* whenever a thread is about to change the phase it holds hs (both static
+     checks guarantee it) *)
   Definition chg_inv (st : xstate) : Prop :=
     forall i t, nth_error (snd st) i = Some t -> changes_under_hs (xheld t) (xk t) (xrest t).
 
-  Lemma remove_lock_hs_not_in h : ~ In hs (remove_lock hs h).
-  Proof. apply remove_lock_not_in. Qed.
+  Lemma kfacts_moved ph h k a :
+    kfacts ph h k ->
+    (forall p, a = AssertP p -> ph = p) ->
+    (match a with Finish _ | Reset => In hs h | _ => True end) ->
+    kfacts (phase_after ph a) (xheld_after h a) (know_after h k a).
+  Proof.
+    intros (KI & KF & KR & KD) HA HC. destruct a as [s|p|ok|].
+    - destruct s as [l|l|x|x|x|x]; simpl; try (unfold kfacts; tauto).
+      + unfold kfacts; simpl. intuition.
+      + destruct (String.eqb l hs) eqn:El.
+        * unfold kfacts. destruct k; intuition discriminate.
+        * assert (Nl : l <> hs) by (intros ->; rewrite String.eqb_refl in El; discriminate).
+          assert (Keep : In hs h -> In hs (remove_lock l h)) by (intros; apply In_remove_lock_other; auto).
+          unfold kfacts. intuition.
+    - specialize (HA p eq_refl). subst ph. unfold kfacts.
+      destruct p; simpl.
+      + destruct (mem_inb hs h) eqn:M; [apply mem_inb_In in M; intuition discriminate | intuition].
+      + intuition discriminate.
+      + destruct (mem_inb hs h) eqn:M; [apply mem_inb_In in M; intuition discriminate | intuition].
+      + intuition.
+    - unfold kfacts. destruct ok; simpl in *; intuition discriminate.
+    - unfold kfacts. simpl in *. intuition discriminate.
+  Qed.
+
+  (* a thread that does not move: its hs-based knowledge survives because the
+     mover cannot hold hs too *)
+  Lemma kfacts_other ph h k a :
+    kfacts ph h k -> (phase_after ph a = ph \/ ~ In hs h) ->
+    kfacts (phase_after ph a) h k.
+  Proof.
+    intros (KI & KF & KR & KD) [->|N]; [unfold kfacts; tauto|].
+    assert (NotInit : phase_after ph a = PInit -> ph = PInit).
+    { destruct a as [s|p|[|]|]; simpl; auto; discriminate. }
+    unfold kfacts. intuition.
+  Qed.
 
   Lemma know_inv_step st lbl st' :
     xexcl st -> chg_inv st -> know_inv st -> xlstep st lbl st' -> know_inv st'.
   Proof.
     intros Hx Hc Hk Hs. inversion Hs as [ph ts i t a r Hn Hr He]; subst.
     intros j tj Hj. simpl in Hj. simpl fst.
+    pose proof (Hc i t Hn) as C. simpl in C. rewrite Hr in C. simpl in C.
     destruct (Nat.eq_dec j i) as [->|Nji].
-    - (* the thread that moved *)
-      rewrite (nth_error_upd_eq ts i _ t Hn) in Hj. inversion Hj; subst tj; clear Hj. simpl.
-      destruct (Hk i t Hn) as (KI & KF & KR & KD). simpl in *.
-      destruct a as [s|p|ok|]; simpl.
-      + (* base step: phase unchanged; knowledge only shrinks on Release hs *)
-        destruct s as [l|l|x|x|x|x]; simpl; try (repeat split; intros E; auto; fail).
-        * (* Acquire: held grows *)
-          repeat split; intros E; try (destruct (KI E); destruct (KF E); destruct (KR E)); simpl; auto;
-            try (destruct (KI E) as [? ?]; auto); try (destruct (KF E) as [? ?]; auto);
-            try (destruct (KR E) as [? ?]; auto).
-        * (* Release *)
-          destruct (String.eqb l hs) eqn:El.
-          -- destruct (xk t); repeat split; intros E; try discriminate; auto.
-          -- assert (l <> hs) by (intros ->; rewrite String.eqb_refl in El; discriminate).
-             repeat split; intros E.
-             ++ destruct (KI E). split; auto. apply In_remove_lock_other; auto.
-             ++ destruct (KF E). split; auto. apply In_remove_lock_other; auto.
-             ++ destruct (KR E). split; auto. apply In_remove_lock_other; auto.
-             ++ auto.
-      + (* AssertP *)
-        simpl in He. subst ph.
-        destruct p; simpl.
-        * destruct (mem_inb hs (xheld t)) eqn:M; [apply mem_inb_In in M; repeat split; intros E; try discriminate; auto | repeat split; intros E; auto].
-        * repeat split; intros E; try discriminate.
-        * destruct (mem_inb hs (xheld t)) eqn:M; [apply mem_inb_In in M; repeat split; intros E; try discriminate; auto | repeat split; intros E; auto].
-        * repeat split; intros E; auto.
-      + (* Finish *)
-        pose proof (Hc i t Hn) as C. rewrite Hr in C. simpl in C.
-        destruct ok; simpl; repeat split; intros E; try discriminate; auto.
-      + (* Reset *)
-        pose proof (Hc i t Hn) as C. rewrite Hr in C. simpl in C.
-        simpl; repeat split; intros E; try discriminate; auto.
-    - (* another thread: its knowledge is untouched; the phase may have changed only
-         if the mover holds hs, which contradicts the other thread's hs-based knowledge *)
-      rewrite nth_error_upd_neq in Hj by auto.
-      destruct (Hk j tj Hj) as (KI & KF & KR & KD). simpl in *.
-      assert (Same : phase_after ph a = ph \/ In hs (xheld t)).
-      { destruct a as [s|p|ok|]; simpl; auto; right;
-          pose proof (Hc i t Hn) as C; rewrite Hr in C; simpl in C; auto. }
-      assert (NoBoth : In hs (xheld tj) -> In hs (xheld t) -> False).
-      { intros A Bh. apply Nji. apply (Hx j i hs); [exists tj | exists t]; auto. }
-      assert (NotInit : phase_after ph a = PInit -> ph = PInit).
-      { destruct a as [s|p|[|]|]; simpl; auto; discriminate. }
-      repeat split; intros E.
-      + apply KI; auto.
-      + destruct (KI E) as [Hh Hp]. destruct Same as [->|Bh]; auto. exfalso; eauto.
-      + apply KF; auto.
-      + destruct (KF E) as [Hh Hp]. destruct Same as [->|Bh]; auto. exfalso; eauto.
-      + apply KR; auto.
-      + destruct (KR E) as [Hh Hp]. destruct Same as [->|Bh]; auto. exfalso; eauto.
-      + intros Q. apply (KD E). auto.
+    - rewrite (nth_error_upd_eq ts i _ t Hn) in Hj. inversion Hj; subst tj; clear Hj. simpl.
+      apply kfacts_moved.
+      + apply (Hk i t Hn).
+      + intros p ->. exact He.
+      + destruct a as [s|p|ok|]; auto.
+    - rewrite nth_error_upd_neq in Hj by auto.
+      apply kfacts_other; [apply (Hk j tj Hj)|].
+      destruct a as [s|p|ok|]; simpl; auto; right; intros Hh; apply Nji;
+        apply (Hx j i hs); [exists tj | exists t | exists tj | exists t]; auto.
   Qed.
 
   Lemma know_inv_init ps : know_inv (xinit ps).
   Proof.
     intros i t Hn. simpl in Hn. apply nth_error_In in Hn. apply in_map_iff in Hn as [p [<- _]].
-    simpl. repeat split; intros E; discriminate.
+    unfold kfacts. simpl. intuition discriminate.
   Qed.
 
   (* both static checks imply chg_inv *)
   Lemma chg_of_xdisc pol h k p : xdisc_from pol h k p = true -> changes_under_hs h k p.
   Proof.
-    destruct p as [|[s|q|ok|] r]; simpl; auto; intros H; apply andb_prop in H as [H _].
-    - apply andb_prop in H as [H _]. now apply mem_inb_In.
+    destruct p as [|[s|q|ok|] r]; simpl; auto; intros H.
+    - apply andb_prop in H as [H _]. apply andb_prop in H as [H _]. now apply mem_inb_In.
     - discriminate.
   Qed.
 
